@@ -182,6 +182,10 @@ impl Display for Interval {
         write(self.hours(), "hour")?;
         write(self.minutes(), "minute")?;
         write(self.seconds(), "second")?;
+        // (the zero interval must not print as the empty string, which reads back as NULL)
+        if *self == Interval::from_days(0) {
+            write!(f, "0 seconds")?;
+        }
         Ok(())
     }
 }
